@@ -312,6 +312,11 @@ func c17CheckOpt(c *Ctx, cs c17Case) {
 		rep.SpecChecks++
 		if d := c17DiffOpt(impl, flat, map[int]bool{c17HistMax: true}); d != "" {
 			rep.Disagreement(Disagreement{Kind: "spec", Name: "layering", Input: cs, Impl: "layered vs single vector: " + d, Expect: "equal configurations"})
+		} else if d := c17DiffOpt(impl, flat, map[int]bool{}); d != "" {
+			// only History.maxSize differs: known finding c17-history-size-layering (a --history-size given in an
+			// earlier layer than --history is forgotten)
+			rep.Disagreement(Disagreement{Kind: "spec", Name: "layering(history-size)", Input: cs, Impl: "layered vs single vector: " + d,
+				Expect: "equal configurations", Known: "c17-history-size-layering"})
 		}
 		rep.Count("layering:checked")
 	}
